@@ -11,6 +11,9 @@ import (
 	"fmt"
 	"go/ast"
 	"go/token"
+	"io/fs"
+	"path/filepath"
+	"regexp"
 	"sort"
 	"strconv"
 	"strings"
@@ -149,6 +152,65 @@ func isExcludedLowercases(c *ctx) (bool, error) {
 	return true, nil
 }
 
+// internalKeyRe is the convention of the in-band bookkeeping keys: `__name__`.
+var internalKeyRe = regexp.MustCompile(`^__[A-Za-z0-9_]+__$`)
+
+// internalKeys collects EVERY string literal of that convention in the non-test Go sources of the
+// whole module (any package, any position: constant, map key, index expression, argument). A new
+// bookkeeping key — wherever it is declared and however it is used — shows up here, and the bridge
+// demands that it is in both exclusion tables. Renames, moved declarations and extracted helpers
+// do not change the result (it is a set of literal values).
+func internalKeys(c *ctx) ([]string, error) {
+	seen := map[string]bool{}
+	var dirs []string
+	err := filepath.WalkDir(c.repo, func(p string, d fs.DirEntry, err error) error {
+		if err != nil {
+			return err
+		}
+		if !d.IsDir() {
+			return nil
+		}
+		n := d.Name()
+		if p != c.repo && (strings.HasPrefix(n, ".") || strings.HasPrefix(n, "_") || n == "testdata" || n == "vendor") {
+			return filepath.SkipDir
+		}
+		rel, err := filepath.Rel(c.repo, p)
+		if err != nil {
+			return err
+		}
+		if rel == "." {
+			rel = ""
+		}
+		dirs = append(dirs, rel)
+		return nil
+	})
+	if err != nil {
+		return nil, err
+	}
+	for _, dir := range dirs {
+		files, err := c.files(dir)
+		if err != nil {
+			return nil, err
+		}
+		for _, f := range files {
+			ast.Inspect(f, func(n ast.Node) bool {
+				if bl, ok := n.(*ast.BasicLit); ok && bl.Kind == token.STRING {
+					if v, err := strconv.Unquote(bl.Value); err == nil && internalKeyRe.MatchString(v) {
+						seen[v] = true
+					}
+				}
+				return true
+			})
+		}
+	}
+	var out []string
+	for k := range seen {
+		out = append(out, k)
+	}
+	sort.Strings(out)
+	return out, nil
+}
+
 func leanBytesList(l []string) string {
 	parts := make([]string, len(l))
 	for i, s := range l {
@@ -189,6 +251,13 @@ func c16Facts(c *ctx) (string, error) {
 	if _, err := isExcludedLowercases(c); err != nil {
 		return "", err
 	}
+	ikeys, err := internalKeys(c)
+	if err != nil {
+		return "", err
+	}
+	if len(ikeys) == 0 {
+		return "", fmt.Errorf("no `__name__` string literal found in the module: the bookkeeping-key convention changed")
+	}
 	var b strings.Builder
 	b.WriteString("/-! Header exclusion tables and bookkeeping keys of imroc/req, regenerated from the source. -/\n")
 	b.WriteString("namespace Generated.C16Facts\n\n")
@@ -202,6 +271,8 @@ func c16Facts(c *ctx) (string, error) {
 	b.WriteString("def apiHeaderOrderKey : List UInt8 := " + leanBytes(rhok) + "\n")
 	b.WriteString("def apiPseudoHeaderOrderKey : List UInt8 := " + leanBytes(rphok) + "\n")
 	b.WriteString("def defaultUserAgent : List UInt8 := " + leanBytes(ua) + "\n\n")
+	b.WriteString("/-- every string literal of the form `__name__` in the non-test sources of the module, sorted -/\n")
+	b.WriteString("def internalKeys : List (List UInt8) := " + leanBytesList(ikeys) + "\n\n")
 	b.WriteString("end Generated.C16Facts\n")
 	return b.String(), nil
 }
